@@ -32,7 +32,9 @@ TOLS = [1e-3, 1e-6, 1e-8, 1e-9, 0.01, 0.1]
 @st.composite
 def near_int(draw, kmax=10**12, tols=TOLS):
     tol = draw(st.sampled_from(tols))
-    k = draw(st.one_of(st.integers(-100, 100), st.integers(-(10**6), 10**6), st.integers(-kmax, kmax)))
+    k = draw(st.one_of(st.integers(-100, 100), st.integers(-(10**6), 10**6), st.integers(-kmax, kmax),
+                       # floats whose spacing is 1 or 0.5: every value is (half-)integral, x - 0.5 is not representable
+                       st.integers(2**51, 2**53).map(lambda v: v | 1), st.integers(-(2**53), -(2**51)).map(lambda v: -((-v) | 1))))
     which = draw(st.integers(0, 11))
     ulp = math.ulp(max(abs(float(k)), 1.0))
     d = [0.0, tol / 2, tol * (1 - 1e-3), tol * (1 + 1e-3), 2 * tol, tol, 0.5 - ulp, 0.5, 0.5 + ulp, 0.25, ulp, None][which]
@@ -227,9 +229,14 @@ def o_pow2(case, T):
 def e_pow2(tier):
     for x in range(-5, 5000):
         yield {"x": x}
-    for p in range(1, 41):
-        for dx in (-1, 0, 1):
-            yield {"x": 2**p + dx}
+    # every power of two a 64-bit size can hold, and its neighbours: beyond 2**48 a float log2 of x can no longer tell
+    # 2**p from 2**p +- 1 (round 8, C20-21; D46 was found here on the unchanged tree)
+    for p in range(1, 63):
+        for dx in (-3, -1, 0, 1, 3):
+            if 2**p + dx >= 1:
+                yield {"x": 2**p + dx}
+    for x in (10**15 - 1, 10**15, 10**15 + 1, 10**18 - 1, 10**18 + 1, 3 * 2**50, 3 * 2**50 + 1, 2**62 - 2**9, 2**62 + 2**9):
+        yield {"x": x}
 
 
 # --------------------------------------------------------------------- snap_grid
